@@ -1,5 +1,5 @@
 """C14 workloads: the keyword x naming-position matrix and the payload x text-position matrix, as hand-built models."""
-from .model import (Attr, ComplexType, Content, Facets, GlobalElement, Group, KEYWORDS, LocalElement, Message, Name, Operation, Part,
+from .model import (Attr, ComplexType, Content, ElementRef, Facets, GlobalElement, Group, KEYWORDS, LocalElement, Message, Name, Operation, Part,
                     SchemaFile, SchemaSet, SimpleType, TypeRef, Wsdl)
 
 POSITIONS = ["local-element", "attribute", "complex-type", "simple-type", "global-element", "operation", "part", "service"]
@@ -67,9 +67,13 @@ def base_program(names=None, texts=None):
                            LocalElement(N("tag"), TypeRef(tag.name.xml, 1, tag), 0, "unbounded"),
                        ]), [Attr(names.get("attribute", N("id")), TypeRef("string"), True)]),
                        None, texts.get("doc-complex"), 1)
-    f1.components = [code, level, tag, item]
+    # a global element of the imported namespace that the request refers to by ref=: the request struct then has a member of
+    # another namespace, whose URI is declared on the struct
+    marker = GlobalElement(N("Marker"), type=TypeRef("string"), file=1)
+    f1.components = [code, level, tag, item, marker]
     req = GlobalElement(names.get("global-element", N("Submit")), content=Content(Group("sequence", 1, 1, [
-        LocalElement(N("item"), TypeRef(item.name.xml, 1, item)), LocalElement(N("note"), TypeRef("string"), 0, 1)]), []), file=0)
+        LocalElement(N("item"), TypeRef(item.name.xml, 1, item)), ElementRef(TypeRef(marker.name.xml, 1, marker), 0, 1),
+        LocalElement(N("note"), TypeRef("string"), 0, 1)]), []), file=0)
     resp = GlobalElement(N("SubmitResult", "submit", "result"), content=Content(Group("sequence", 1, 1, [
         LocalElement(N("ok"), TypeRef("boolean"))]), []), file=0)
     hdr = GlobalElement(N("Session"), content=Content(Group("sequence", 1, 1, [LocalElement(N("token"), TypeRef("string"))]), []), file=0)
